@@ -161,14 +161,21 @@ def check(col: Collector, tier: str):
             # sequence of sequences) has its loop already written by as_sequence, outside the guard: returning it unchanged yields
             # the inner elements of EVERY outer element, not of the first.
             pubs = [c for c in walk_no_nested(f.node) if isinstance(c, ast.Call) and call_name(c) == "set_rep"]
-            seq_arm = None
-            if len(pubs) == 1:
-                v = resolve_name(f.node, pubs[0].args[1])
-                if isinstance(v, ast.IfExp) and "cpp_sequence" in src(v.test):
-                    seq_arm = v.body if "not" not in src(v.test).split("isinstance")[0] else v.orelse
-            confined = seq_arm is None or not isinstance(seq_arm, ast.Name)
+            # (every value the published expression can have, with the closed guard set it has it under: if/else, conditional expression
+            # and guard clause read the same)
+            from sa.props._tr import conditional_defs
             has_refusal = any(isinstance(r, ast.Raise) and any("cpp_sequence" in src(t) and tr_ for t, tr_ in guards(f.node, r, parent_map(f.node)))
                               for r in walk_no_nested(f.node))
+            seq_arms = []
+            if len(pubs) == 1:
+                gp = frozenset((src(t), tr_) for t, tr_ in guards(f.node, pubs[0], parent_map(f.node)))
+                for v, gs in conditional_defs(f.node, pubs[0].args[1], follow=False):
+                    if any("cpp_sequence" in t_ and "isinstance" in t_ and tr_ for t_, tr_ in gs | gp):
+                        seq_arms.append(v)
+            if not seq_arms and not has_refusal:
+                col.defer("call_First: no published value stands under `isinstance(<element>, cpp_sequence)` and that case is not refused: "
+                          "C01.R15 sequence-valued-first-confined-to-the-guard not decided on this shape")
+            confined = bool(seq_arms) and not any(isinstance(a_, ast.Name) for a_ in seq_arms)
             col.add("C01.R15", f.short, "sequence-valued-first-confined-to-the-guard", confined or has_refusal,
                     "when the element is itself a sequence, call_First publishes that sequence as it is: its loop was written before (outside) "
                     "`if (is_first)`, so every outer element contributes", f.loc)
